@@ -620,14 +620,31 @@ func (x *FnExec) enterLoop(fr *Frame, li *loopInfo, ps []stParent, preds []*ssa.
 		keys = append(keys, k)
 	}
 	sort.Strings(keys)
+	var starAlloc *Term
+	if wl["*"] {
+		// the loop calls code with unbounded effects (`modifies *` or no contract): the loop head state is an
+		// arbitrary heap, ghost state included (conservative); local cells survive (see havocAll)
+		saved := x.writeLog
+		x.writeLog = nil
+		x.havocAll(st)
+		x.writeLog = saved
+		if st.base != nil {
+			st.base.ghostBase = nil
+		}
+		x.addFact(x.intLe(pre.alloc, st.alloc))
+		starAlloc = st.alloc
+	}
 	for _, k := range keys {
 		if k == "*" {
-			unsupp("loop %d of %s calls code with unbounded effects", li.ordinal, fr.fn)
+			continue
 		}
 		st.heap[k] = x.tc.Fresh("Hloop|"+k, x.heapSorts[k])
 	}
 	na := x.tc.Fresh("ALLOCloop", x.refSort())
 	x.addFact(x.intLe(pre.alloc, na))
+	if starAlloc != nil {
+		x.addFact(x.intLe(starAlloc, na))
+	}
 	x.allocBound(na)
 	st.alloc = na
 	var cellAllocs []ssa.Value
